@@ -34,7 +34,11 @@ def gen(seed, tier):
         for D in range(0, 7):
             for kind in ("max", "full", "pi"):
                 for src in sy.gen_sources(r, n_record=1, extremes=("min", "max") if D <= 4 else (), ge=1):
-                    cases.append({"op": "create", "decl": d, "decider": [kind, D], "src": src})
+                    c = {"op": "create", "decl": d, "decider": [kind, D], "src": src}
+                    if len(cases) % 3 == 0:
+                        # a second grammar over the same classes (other depth mode, fewer productions) is extracted in between
+                        c["interleave"] = {"xdepth": not d["xdepth"], "considered": [i for i in d["considered"] if i % 2 == 0 or i == d["start"]]}
+                    cases.append(c)
     for _ in range(200 if big else 45):
         d = grammars.gen_decl(r, {"weights": False, "tuples": True})
         for D in r.sample(range(1, 8), 3):
